@@ -47,12 +47,21 @@ func (dec *Decoder) ReadBytes() []byte {
 func (dec *Decoder) readUint8Slice(et reflect.Type) []byte {
 	count := dec.readCount()
 	slice := make([]byte, 0, dec.prealloc(count))
+	// the list takes its place in the reference table before its elements do (an element
+	// written as a string takes one too): the slot is filled when the bytes are complete
+	dec.AddReference(nil)
+	index := -1
+	if !dec.IsSimple() {
+		index = dec.refer.Last()
+	}
 	for i := 0; i < count && dec.Error == nil; i++ {
 		var b byte
 		dec.decodeUint8(et, dec.NextByte(), &b)
 		slice = append(slice, b)
 	}
-	dec.AddReference(slice)
+	if index >= 0 {
+		dec.SetReference(index, slice)
+	}
 	dec.Skip()
 	return slice
 }
